@@ -74,3 +74,11 @@ Fixpoint model_steps (w : world) (p : list ltable) (steps : list stepobs) : bool
   end.
 
 Definition hist_model_ok (steps : list stepobs) (final : list ltable) : bool := model_steps w0 [] steps.
+
+(* DataMatrix.__getitem__: the isinstance facts the running interpreter gives for one key of every class, and the
+   operation that key selected (0-6 as in k_getitem_dispatch), against the model's table and the generated dispatch *)
+Definition facts_eqb (a b : bool * bool * bool * bool * bool * bool) : bool :=
+  let '(a1, a2, a3, a4, a5, a6) := a in let '(b1, b2, b3, b4, b5, b6) := b in
+  Bool.eqb a1 b1 && Bool.eqb a2 b2 && Bool.eqb a3 b3 && Bool.eqb a4 b4 && Bool.eqb a5 b5 && Bool.eqb a6 b6.
+Definition getitem_ok (obs : list (pykey * (bool * bool * bool * bool * bool * bool) * Z)) : bool :=
+  forallb (fun '(k, f, d) => facts_eqb (key_facts k) f && Z.eqb (getitem_dispatch k) d) obs.
